@@ -149,6 +149,8 @@ fixed("C08", "d44f50a", "CUR / PCov-CUR warm start on data of scale >~ 1e3 re-or
 
 fixed("C08", "18b51ea", "CUR / PCov-CUR warm start on float32 data re-orthogonalised by round-off residuals (residual ~1e-7 x norm against tolerance 1e-12 x norm): the warm-started selection differed from the cold one in 30 of 40 random 30x20 float32 matrices (observation of a round-4 sub-agent, reproduced; found by the float32 class of C08)")
 
+fixed("C08", "b2f2ffd", "sample PCov-CUR warm start kept using the X and y arrays of the cold fit (X_ref_, y_ref_ are references to the caller's arrays) instead of the data it is handed: after the caller re-used those buffers the warm-started selection and pi differed from the cold fit (17 of 2146 generated chains once the harness overwrote its buffers after each fit)")
+
 # ------------------------------------------------------------------ C15
 fixed("C15", "d67ecc1", "periodic_pairwise_euclidean_distances(list-of-lists, cell_length=...) raised AttributeError: the dimension check read X.shape before the documented array-like input was validated")
 
